@@ -106,6 +106,7 @@ func (t *TransactionManager) GetTransaction(id string) (*Transaction, error) {
 // if it is still the ongoing transaction. It might have been confirmed or canceled (and even be followed by another
 // transaction) between the timer firing and the TransactionManager lock being acquired.
 func (t *TransactionManager) rollbackExpired(ctx context.Context, trans *Transaction) error {
+	verifYield("tm.rollback")
 	t.tmMutex.Lock()
 	defer t.tmMutex.Unlock()
 	if t.transaction != trans {
